@@ -54,7 +54,7 @@ def build(mols, params, pad_extra=0, pad_value=0.0, learned=None, **molkw):
     sp, xyz, ch, mu = M.batch(mols, pad_extra=pad_extra, pad_value=pad_value)
     const = Constants()
     species = torch.as_tensor(sp, dtype=torch.int64)
-    coords = torch.as_tensor(xyz, dtype=torch.float64)
+    coords = torch.as_tensor(xyz, dtype=molkw.pop("dtype", torch.float64))
     kw = dict(molkw)
     if np.any(ch != 0) or np.any(mu != 1) or params.get("UHF"):
         kw["charges"] = torch.as_tensor(ch, dtype=torch.int64)
